@@ -403,7 +403,7 @@ func c06GenFeats(g *hx.Gen, offset, n int) string {
 func c06Kind(g *hx.Gen) string { return []string{"s", "s", "s", "q", "q", "p"}[g.Intn(6)] }
 
 func c06Gen(g *hx.Gen) {
-	n := g.Scale(12000, 1000000)
+	n := g.Scale(40000, 1000000)
 	for k := 0; k < n && !g.Done(); k++ {
 		switch g.Intn(10) {
 		case 0, 1, 2: // Truncate
@@ -424,7 +424,19 @@ func c06Gen(g *hx.Gen) {
 					return g.Range(offset-1, end+1)
 				}
 			}
-			g.Casef("tr %s %s %d %d %s %d %d %d", kind, alpha, conf, offset, hx.Hex(data), g.Pick(0, 1, 1, 2), pos(), pos())
+			start, stop := pos(), pos()
+			if ln > 0 && g.Chance(0.55) {
+				// a request inside the sequence; wrapping through the origin when not linear
+				a, b := g.Range(offset, end), g.Range(offset, end)
+				if a > b {
+					a, b = b, a
+				}
+				start, stop = a, b
+				if conf != 0 && a < b && g.Chance(0.5) {
+					start, stop = b, a
+				}
+			}
+			g.Casef("tr %s %s %d %d %s %d %d %d", kind, alpha, conf, offset, hx.Hex(data), g.Pick(0, 1, 1, 2), start, stop)
 		case 3, 4: // Stitch
 			kind := c06Kind(g)
 			alpha, conf, offset, data := c06GenSeq(g, kind)
@@ -519,9 +531,33 @@ func c06Shrink(input string) []string {
 			emit(with(i, v))
 		}
 	}
+	dropLetters := func(i, offIdx int, kind string) {
+		w := 2
+		if kind == "q" {
+			w = 4
+		}
+		if f[i] == "-" || len(f[i]) < w {
+			return
+		}
+		tail := f[i][:len(f[i])-w]
+		if tail == "" {
+			tail = "-"
+		}
+		emit(with(i, tail)) // drop the last letter
+		head := f[i][w:]
+		if head == "" {
+			head = "-"
+		}
+		g := with(i, head) // drop the first letter; the rest keeps its positions
+		g[offIdx] = strconv.Itoa(hx.Atoi(f[offIdx]) + 1)
+		emit(g)
+	}
 	switch f[0] {
+	case "tr":
+		dropLetters(5, 4, f[1])
 	case "st", "co":
 		dropList(7)
+		dropLetters(5, 4, f[1])
 	case "td":
 		dropList(4)
 	case "tq":
